@@ -46,6 +46,12 @@ def run(ctx):
     one_case(3, 2, [b"k", b"k\x00"], 2, [("add", 0, b"k", cc.CAP - 2), ("add", 0, b"k", 1), ("add", 0, b"k", 5),
                                           ("saveload", 0), ("merge", 0, 1)], "corpus")
 
+    # counters exactly on / next to a storage-width boundary go through save/load and merge (a save() that narrows
+    # the table loses exactly these; added after seeded change C01_save_narrowest_dtype)
+    for v in (255, 256, 257, 65535, 65536, 65537):
+        one_case(3, 2, [b"p", b"q"], 2, [("add", 0, b"p", v), ("saveload", 0), ("add", 1, b"q", v // 2), ("add", 1, b"q", v - v // 2),
+                                         ("saveload", 1), ("merge", 0, 1), ("saveload", 0)], "corpus")
+
     # ---- exhaustive sub-space: all 3^L unit-add histories, L <= Lmax, 3-key alphabet, width 2, depth 2
     Lmax = 4 if quick else 7
     abc = [b"x", b"y", b"z"]
